@@ -573,6 +573,20 @@ theorem shadowed_stub_counterexample :
     runCall (ρ := Nat) T0 nm natOps .sync (svcOf [meth "GetBook", meth "Kind"]) (meth "GetBook") (.inst 7) [1]
       = .error .attributeError := by decide
 
+/-- an RPC of the API NAMED like a mix-in RPC that is mixed in (`svc.mixins` = keys of
+`api.mixin_api_methods`): the mix-in's stub property is defined AFTER the service's own one and
+replaces it (third clause of `WF.later`; what the mix-in stub then does is C17's model).  Operations
+and Locations mix-ins do not yield to same-named RPCs of the API (findings/C03.json,
+`mixin-shadows-own-rpc:operations-locations`); IAM mix-ins do (`API._has_iam_overrides`), so an
+IAM-named RPC of the API never meets its name in `mixins` (corpus/C03/own_iam_rpcs_declared_*):
+with other mix-ins only, the own RPC is reached on its own path. -/
+theorem mixin_shadows_own_rpc_counterexample :
+    let svc (mx : List String) : Service := { svcOf [meth "GetBook", meth "GetLocation"] with mixins := mx.map String.toList }
+    lastDef (members pinnedTables nm (svc ["GetLocation"])) (stubKey pinnedTables (meth "GetLocation")) = some .mixinStub ∧
+    runCall (ρ := Nat) pinnedTables nm natOps .sync (svc ["GetLocation"]) (meth "GetLocation") (.inst 7) [1] = .error .typeError ∧
+    runCall (ρ := Nat) pinnedTables nm natOps .sync (svc ["ListLocations", "SetIamPolicy"]) (meth "GetLocation") (.inst 7) [1]
+      = .ok { calls := [⟨"/acme.lib.v1.Library/GetLocation".toList, "unary_unary".toList, [7]⟩], ret := .value 1 } := by decide
+
 /-- two RPCs with one snake-case form: the client method of `GetBook` calls `/…/Get_book`. -/
 theorem snake_collision_counterexample :
     runCall (ρ := Nat) pinnedTables nm natOps .sync (svcOf [meth "GetBook", meth "Get_book"]) (meth "GetBook") (.inst 7) [1]
